@@ -566,6 +566,10 @@ func init() {
 		e.c09Body(s, srv, "handleError", "handleErrorBody", []c09Param{{"err", "err", "flag"},
 			{"errors.Is(err, http.ErrServerClosed)", "closed", "flag"}})
 		e.c09Calls(s, eng, "engine.start", "engineStartCalls")
+		// round 5: the decisions of engine.bindRoute / appendAuthHandler (model `bindChain`, `tokenOk`)
+		e.c09Cond(s, eng, "engine.bindRoute", "condBindRouteNative", c09If(0), []c09Param{{"chn", "chn", "flag"}})
+		e.c09Cond(s, eng, "engine.appendAuthHandler", "condAuthEnabled", c09If(0), []c09Param{{"fr.jwt.enabled", "enabled", "flag"}})
+		e.c09Cond(s, eng, "engine.appendAuthHandler", "condAuthNoPrev", c09If(1), []c09Param{{"fr.jwt.prevSecret", "prev", "str"}})
 		// round 5: forwarded argument lists of the delegating entry points
 		e.c09Calls(s, srv, "Server.AddRoute", "serverAddRouteCalls")
 		e.c09Calls(s, srv, "MustNewServer", "mustNewServerCalls")
@@ -576,6 +580,7 @@ func init() {
 		e.c09Calls(s, eng, "engine.bindRoutes", "engineBindRoutesCalls")
 		e.c09Calls(s, eng, "engine.bindFeaturedRoutes", "engineBindFeaturedCalls")
 		e.c09Calls(s, eng, "engine.bindRoute", "engineBindRouteCalls")
+		e.c09Calls(s, eng, "engine.appendAuthHandler", "engineAppendAuthCalls")
 		e.c09Calls(s, tree, "Tree.Add", "treeAddCalls")
 		e.c09Calls(s, tree, "Tree.Search", "treeSearchCalls")
 		e.c09Calls(s, pat, "patRouter.Handle", "handleCalls")
